@@ -246,11 +246,132 @@ def generate_unrodded(ctx):
     return names
 
 
+def generate_carryover(ctx):
+    """Region change: the real `_activate_base` (new region's coolant nodes := mixed mean of the old region) and the real mixed-mean
+    properties (`avg_coolant_temp` / `avg_coolant_int_temp` of the rodded and the low-fidelity regions) are executed symbolically on
+    pairs of real regions.  Gen/C01Carry.lean: per pair a theorem - the mixed mean of the NEW region after activation equals the mixed
+    mean of the OLD region, for all temperatures of the old region, provided the new region's own weights sum to one (for a bundle: its
+    subchannel flows sum to its flow rate - C12's mass conservation; stated as hypothesis)."""
+    import copy
+    import re
+    import dassh
+    import dassh.region_unrodded as UR
+    from harness.trace import NpProxy, rebind, symarray
+    L = ["-- GENERATED by /verif/harness (C01, region change): traced from dassh.region.DASSH_Region._activate_base and the regions' mixed-mean properties.",
+         "import Mathlib.Algebra.Order.Field.Basic", "import Mathlib.Tactic.FieldSimp", "import Mathlib.Tactic.Ring",
+         "import Mathlib.Tactic.LinearCombination", "",
+         "namespace Dassh.Gen.C01Carry", "", "variable {K : Type} [Field K] [LinearOrder K] [IsStrictOrderedRing K]", "",
+         "set_option linter.unusedVariables false", ""]
+    names = []
+    fix = lambda t: re.sub(r"\((\d+) : α\)", r"(\1 : K)", t)
+    rng = random.Random(3100)
+
+    def sym_bundle(tr, tag, n_duct):
+        """shadow of a real 7-pin bundle with symbolic temperatures, subchannel flows (area share x split) and areas"""
+        dims = du.bundle_dims(rng, 2, n_duct)
+        rr = du.activate_rr(du.make_rr(dims, flow_rate=5.0, byp_ff=0.1), 650.0)
+        o = copy.copy(rr)
+        o.temp = {k: v.copy() for k, v in rr.temp.items()}
+        o.temp['coolant_int'] = symarray(tr, tag + "T", rr.temp['coolant_int'])
+        o._mfrc = symarray(tr, tag + "mc", rr._mfrc)
+        o.coolant_int_params = dict(rr.coolant_int_params)
+        o.coolant_int_params['fs'] = symarray(tr, tag + "fs", rr.coolant_int_params['fs'])
+        o.int_flow_rate = tr.var(tag + "Mint", float(rr.int_flow_rate))
+        if n_duct > 1:
+            o.temp['coolant_byp'] = symarray(tr, tag + "Tb", rr.temp['coolant_byp'])
+            o.area = dict(rr.area)
+            o.area['coolant_byp'] = symarray(tr, tag + "Ab", rr.area['coolant_byp'])
+            o.total_area = dict(rr.total_area)
+            o.total_area['coolant_byp'] = symarray(tr, tag + "Abt", rr.total_area['coolant_byp'])
+            o.byp_flow_rate = symarray(tr, tag + "Mb", np.atleast_1d(rr.byp_flow_rate))
+            o.total_flow_rate = tr.var(tag + "M", float(rr.total_flow_rate))
+        return o, rr
+
+    def sym_unrodded(tr, tag, cls):
+        reg = cls('ur', 0.0, 1.0, [0.11, 0.116], 0.3, 5.0, du.const_material('cool'), du.const_material('duct', k=25.0), None,
+                  convection_factor=0.7)
+        o = copy.copy(reg)
+        o.temp = {k: v.copy() for k, v in reg.temp.items()}
+        n = reg.temp['coolant_int'].shape[0]
+        o.temp['coolant_int'] = symarray(tr, tag + "T", np.full(n, 640.0))
+        o.area = dict(reg.area)
+        o.area['coolant_int'] = symarray(tr, tag + "A", np.atleast_1d(reg.area['coolant_int']))
+        if o.area['coolant_int'].shape[0] != n:
+            o.area['coolant_int'] = symarray(tr, tag + "A", np.full(n, float(np.ravel(reg.area['coolant_int'])[0])))
+        o.total_area = dict(reg.total_area)
+        o.total_area['coolant_int'] = tr.var(tag + "At", float(reg.total_area['coolant_int']))
+        return o, reg
+
+    class NP(NpProxy):
+        def allclose(self, a, b, **kw):
+            arr = np.asarray(a, dtype=object).ravel()
+            return all(abs((x.val if isinstance(x, Sym) else float(x)) - b) < 1e-8 for x in arr)
+
+    def fresh(o_new):
+        """a region that has not been activated yet: every temperature is 1 (as the constructors leave it)"""
+        o_new.temp = {k: NpProxy(o_new._tr).ones(np.shape(v)) for k, v in o_new.temp.items()}
+
+    pairs = [("bundle_to_simple", ("bundle", 1), ("ur", UR.SingleNodeHomogeneous)),
+             ("bundle2_to_six", ("bundle", 2), ("ur", UR.MultiNodeHomogeneous)),
+             ("six_to_bundle", ("ur", UR.MultiNodeHomogeneous), ("bundle", 1)),
+             ("simple_to_bundle2", ("ur", UR.SingleNodeHomogeneous), ("bundle", 2))]
+    for tag, old_spec, new_spec in pairs:
+        try:
+            tr = Trace()
+            old, old_real = sym_bundle(tr, "o", old_spec[1]) if old_spec[0] == "bundle" else sym_unrodded(tr, "o", old_spec[1])
+            new, new_real = sym_bundle(tr, "n", new_spec[1]) if new_spec[0] == "bundle" else sym_unrodded(tr, "n", new_spec[1])
+            t_old = type(old_real).avg_coolant_temp.fget(old)
+            new._tr = tr
+            fresh(new)
+            prev = old      # the symbolic shadow of the real old region (its duct averages are plain numbers)
+            rebind(dassh.DASSH_Region._activate_base, tr, {'np': NP(tr)})(new, prev)
+            t_new = type(new_real).avg_coolant_temp.fget(new)
+        except Exception:
+            import traceback
+            ctx.problem("trace-failed", "c01 carry-over " + tag, traceback.format_exc()[-900:])
+            continue
+        if not isinstance(t_new, Sym) or not isinstance(t_old, Sym):
+            ctx.problem("trace-shape", "c01 carry-over " + tag, "mixed mean is not symbolic")
+            continue
+        vs = sorted(used_vars([t_old, t_new]))
+        hyps = " ".join("(h_%s : 0 < %s)" % (v, v) for v in vs if not re.match(r"[on]Tb?_", v))
+        # weights of the new region sum to one: substitute every new-region temperature by 1 in its own mixed-mean formula
+        tr2 = Trace()
+        tnew_probe = type(new_real).avg_coolant_temp.fget(_with_unit_temps(new, tr))
+        wsum = fix(to_lean(rename(tnew_probe, lambda v: v, tr2))) if isinstance(tnew_probe, Sym) else "(1 : K)"
+        pvs = sorted(set(vs) | set(used_vars([tnew_probe]) if isinstance(tnew_probe, Sym) else []))
+        hyps = " ".join("(h_%s : 0 < %s)" % (v, v) for v in pvs if not re.match(r"[on]Tb?_", v))
+        nm = "carry_" + tag
+        L.append("/-- %s: mixed mean after activation = mixed mean before, given that the new region's weights sum to one -/" % tag.replace("_", " "))
+        tn_txt, to_txt = fix(to_lean(rename(t_new, lambda v: v, tr2))), fix(to_lean(rename(t_old, lambda v: v, tr2)))
+        L.append("theorem %s (%s : K) %s\n    (hw : %s = 1) :\n    %s = %s := by" % (nm, " ".join(pvs), hyps, wsum, tn_txt, to_txt))
+        L.append("  have h : %s = (%s) * (%s) := by\n    first | (field_simp; ring) | field_simp | ring" % (tn_txt, wsum, to_txt))
+        L.append("  rw [h, hw, one_mul]\n")
+        names.append("Dassh.Gen.C01Carry." + nm)
+        ctx.count("carry_over_pairs_traced")
+    L.append("end Dassh.Gen.C01Carry\n")
+    ctx.gen("C01Carry", "\n".join(L))
+    return names
+
+
+def _with_unit_temps(o, tr):
+    """shallow copy of a symbolic region whose coolant temperatures are all the constant 1"""
+    import copy
+    from harness.trace import NpProxy
+    c = copy.copy(o)
+    c.temp = dict(o.temp)
+    for k in ('coolant_int', 'coolant_byp'):
+        if k in c.temp:
+            c.temp[k] = NpProxy(tr).ones(np.shape(o.temp[k]))
+    return c
+
+
 def generate(ctx):
     txt, info = generate_text(ctx, random.Random(3000))
     ctx.gen("C01", txt)
     generate_general(ctx)
     generate_unrodded(ctx)
+    generate_carryover(ctx)
     return info
 
 
@@ -458,6 +579,7 @@ def run(ctx):
         ctx.stats["trace"] = info
         generate_general(ctx)
         generate_unrodded(ctx)
+        generate_carryover(ctx)
         ok_line = bt.check_mfrc_line()
         ctx.obligation("source line `_mfrc = area * int_flow_rate / bundle area` unchanged in _setup_flowrate", ok_line,
                        kind="translator-validation")
@@ -467,7 +589,7 @@ def run(ctx):
         ctx.problem("trace-failed", "c01 tracer", traceback.format_exc()[-2000:])
         gen_ok = False
     if gen_ok:
-        ctx.prove("Dassh.Props.C01", also=["Dassh.Gen.C01Ur"])
+        ctx.prove("Dassh.Props.C01", also=["Dassh.Gen.C01Ur", "Dassh.Gen.C01Carry"])
     oracle_reactor(ctx, rng, 40 if ctx.thorough else 10)
     ctx.nontrivial = ctx.evals
     ctx.traces = ctx.evals
